@@ -91,7 +91,8 @@ def register(prop, run, KERNELS, C01_COVERS):
 
     prop("C02",
          quick=[run("C02_step", covers=["done"], nmax=2, cache=1, preop=1),
-                run("C02_step", covers=["done", "trailing-unflushed", "second-generation"], nmax=1, cache=1, ncolls=2, trailing=1, preop=0, secondgen=1, budget=900)],
+                run("C02_step", covers=["done", "trailing-unflushed", "second-generation"], nmax=1, cache=1, ncolls=2, trailing=1, preop=0, secondgen=1, budget=900),
+                run("C02_step", covers=["done", "flush-retried"], nmin=1, nmax=2, cache=0, vlenmin=1, preop=1, flushfault=1, maxfail=8)],
          thorough=[run("C02_step", covers=["done"], nmax=2, cache=1, preop=1, klen=2, budget=1800),
                    run("C02_step", covers=["done"], nmin=3, nmax=3, cache=2, preop=1, budget=1800),
                    run("C02_step", covers=["done", "trailing-unflushed", "second-generation"], nmax=2, cache=2, ncolls=2, trailing=1, preop=0, secondgen=1, budget=1800)],
